@@ -43,7 +43,7 @@ func (kt KeyType) String() string {
 
 func (kt KeyType) HasPrefix() bool { return kt.Kind == "alpha" || kt.Kind == "collation" }
 func (kt KeyType) IsBytesKey() bool {
-	return (kt.Kind == "alpha" || kt.Kind == "collation") && kt.T == "bytes"
+	return (kt.Kind == "alpha" || kt.Kind == "collation") && (kt.T == "bytes" || kt.T == "runes")
 }
 
 var unsignedTypes = []string{"uint8", "uint16", "uint32", "uint64", "uint"}
